@@ -8,6 +8,8 @@
 import Gotree.Lemmas.C14
 import Gotree.Lemmas.C14R2
 import Gotree.Lemmas.C14Avg
+import Gotree.Lemmas.C14Walk5
+import Gotree.Lemmas.C14Cut7
 
 namespace Gotree.C14
 open Gotree
@@ -316,6 +318,73 @@ theorem avgGo_is_avg (metric : Int) (m : Metric) (ts : List T)
       | some r => .ok r
       | none => .err avgMsg :=
   avgGo_eq metric m ts hgo
+
+/-! ### the statement-level model (pointer graph, `prev`, `SetId`/`Id()`, `lengths[...]`) -/
+
+/-- The order in which the code produces the tips: `Tips()`/`tipsRecur` on the pointer graph
+    of a rose tree lists exactly `T.tipNames`, in the same order (the root first when it has
+    a single neighbour). -/
+theorem tips_order (t : T) : (Go.G.ofT t).tips.map (Go.G.ofT t).name = t.tipNames :=
+  tips_names_ofT t
+
+/-- ★ `ToDistanceMatrix` as the code writes it — `Tips()`, the stable insertion sort of
+    `sort.Slice` by name, `SetId(i)`, one `pathLengths(tip, nil, matrix[i], 0, metric)` per
+    tip with its `prev` test, its `switch metric` and `lengths[cur.Id()] = curlength` —
+    run on the pointer graph of any rose tree with unique tip names returns exactly the
+    matrix of the rose-tree model: same rows in the same order, same entries.  Hence every
+    theorem above about `matrix` is a theorem about the statement-level model. -/
+theorem matrixGo_is_matrix (mi : Int) (t : T) (hu : t.tipNames.Nodup) :
+    Go.matrixGo mi t = some (matrix (metricOf mi) t) :=
+  matrixGo_eq_matrix mi t hu
+
+/-- … in particular it meets the Spec used as oracle (path sums, sorted rows). -/
+theorem matrixGo_meets_spec (mi : Int) (t : T) (hu : t.tipNames.Nodup) :
+    ∃ names mat, Go.matrixGo mi t = some (names, mat) ∧ matrixOK (metricOf mi) t names mat = true :=
+  ⟨_, _, matrixGo_eq_matrix mi t hu, matrix_eq_pathsum (metricOf mi) t hu⟩
+
+/-- The literal `AvgDistanceMatrix` on trees with unique tip names: the entrywise mean of
+    `avg_is_mean` when the sorted names agree, the error otherwise, never a panic — now
+    without any assumption on the statement-level matrices. -/
+theorem avgGo_is_avg_uniq (mi : Int) (ts : List T) (hu : ∀ t ∈ ts, t.tipNames.Nodup) :
+    Go.avgDistanceMatrix mi ts =
+      match avgMatrix (metricOf mi) ts with
+      | some r => .ok r
+      | none => .err avgMsg :=
+  avgGo_eq mi (metricOf mi) ts (fun t ht => matrixGo_eq_matrix mi t (hu t ht))
+
+example : metricOf 0 = .brlen ∧ metricOf 1 = .boots ∧ metricOf 2 = .none ∧ metricOf 7 = .brlen ∧ metricOf (-1) = .brlen := by decide
+
+/-- ★ `CutEdgesMaxLength` as the code writes it — `Edges()`, `SetId`, the `visited` slice, for
+    every branch not yet visited either the two floods `cutEdgesMaxLengthRecur(bag, Left, Right)` /
+    `(bag, Right, Left)` with `visited[b.Id()] = true` on every branch crossed, or the single-tip
+    bags of a long branch, `TipBag` as a map by name with its duplicate test, `Tips()` sorted —
+    run on the pointer graph of any rose tree with unique tip names succeeds, its bags are those
+    of the rose-tree model `cut` up to the order of the bags and inside them, and they meet the
+    Spec used as oracle: a partition of the tips in which two tips share a bag iff every branch
+    between them is shorter than the threshold. -/
+theorem cutGo_is_cut (thr : Rat) (t : T) (hu : t.tipNames.Nodup) :
+    ∃ bags, Go.cutGo thr t = .ok bags ∧ LPerm bags (cut thr t) ∧ cutOK thr t bags = true := by
+  obtain ⟨bags, h1, h2⟩ := cutGo_LPerm thr t hu
+  exact ⟨bags, h1, h2, cutOK_of_LPerm thr t h2 (cutOK_holds thr t hu)⟩
+
+/- kernel-evaluated instance: root on the tip D, threshold 2 -/
+example : Go.cutGo 2 exTipRoot = .ok [["A", "D"], ["B"], ["C"]] := by decide +kernel
+
+/-- `cutEdgesMaxLengthRecur` of the statement-level model, entering a subtree `t` (top node `n`)
+    from its parent `p`: it returns without error, the bag grows by exactly the tips that the
+    rose-tree model's `comp thr t` calls open (joined to the top node by branches shorter than
+    the threshold), in that order, and exactly the branches crossed are marked visited —
+    provided the names in the bag and below are distinct. -/
+theorem cut_flood (g : Go.G) (thr : Rat) (t : T) (fuel n p : Nat) (bag : Go.Bag) (visited : Array Bool)
+    (hf : t.size ≤ fuel) (hp : p < n) (hs : Sub g.nodes n (Go.flatT (some p) n t))
+    (he : Sub g.edges n (Go.gedgesT n t)) (hb : ∃ b, g.edges[n - 1]? = some b)
+    (hn : (bag.map (·.1) ++ (leafIdxT n t).map g.name).Nodup) :
+    Go.cutRecur g thr fuel bag n p visited =
+      .ok (bag ++ tipPairs g (openT thr n t), markAll visited (reachT thr n t)) ∧
+    (tipPairs g (openT thr n t)).map (·.1) = (comp thr t).1 := by
+  refine ⟨flood_down g thr t fuel n p bag visited hf hp hs he hb hn, ?_⟩
+  rw [← openT_names g thr t n (some p) hs]
+  simp [tipPairs, List.map_map, Function.comp]
 
 /-- three tips / the first two of them -/
 def exAbc : T := .node ⟨"", []⟩ 0 [(mkE 1 0, T.leaf "a"), (mkE 2 1, T.leaf "b"), (mkE 3 2, T.leaf "c")]
